@@ -255,3 +255,54 @@ func TestVgC08InternalPoint(t *testing.T) {
 	vgS_Point_GetAffineX_safe(NewSM2Point().Set(B))
 	vgNote("scenario Point_GetAffineX_safe 1")
 }
+
+// thorough tier: more scalars per comb scheme (zero rows, dense rows, boundary values) and every
+// scalar length 1..40 for the variable-point multiplication
+func TestVgC08InternalBaseMore(t *testing.T) {
+	if !utils.VgRunning() {
+		t.Skip("not under valgrind")
+	}
+	vgSink += uint64(utils.VgControls())
+	var ks [][]byte
+	for i := 0; i < 10; i++ {
+		ks = append(ks, vgBytes(300+i, 32))
+	}
+	small := make([]byte, 32)
+	small[29] = 1 // 2^16: the three top comb windows are zero
+	sparse := make([]byte, 32)
+	sparse[0], sparse[31] = 0x40, 0x01
+	hi := make([]byte, 32)
+	hi[0] = 0x80
+	nm1 := []byte{0xFF, 0xFF, 0xFF, 0xFE, 0xFF, 0xFF, 0xFF, 0xFF, 0xFF, 0xFF, 0xFF, 0xFF, 0xFF, 0xFF, 0xFF, 0xFF, 0x72, 0x03, 0xDF, 0x6B, 0x21, 0xC6, 0x05, 0x2B, 0x53, 0xBB, 0xF4, 0x09, 0x39, 0xD5, 0x41, 0x22}
+	ks = append(ks, small, sparse, hi, nm1)
+	for _, k := range ks {
+		vgS_ScalarBaseMult(append([]byte{}, k...))
+		for which := 0; which < 3; which++ {
+			vgS_ScalarBaseMult_scheme(which, append([]byte{}, k...))
+		}
+	}
+	vgNote("scenario ScalarBaseMult %d", len(ks))
+	vgNote("scenario ScalarBaseMult_scheme %d", 3*len(ks))
+}
+
+func TestVgC08InternalVarMore(t *testing.T) {
+	if !utils.VgRunning() {
+		t.Skip("not under valgrind")
+	}
+	vgSink += uint64(utils.VgControls())
+	G := NewSM2Generator()
+	negG := NewSM2Point().Negate(G)
+	twoG := NewSM2Point().Double(G)
+	n := 0
+	for l := 1; l <= 40; l++ {
+		P := []*SM2Point{G, negG, twoG}[l%3]
+		vgS_ScalarMult(P, vgBytes(400+l, l))
+		n++
+	}
+	vgNote("scenario ScalarMult %d", n)
+	Q, _ := ScalarBaseMult(vgBytes(450, 32))
+	for i := 0; i < 3; i++ {
+		vgS_ScalarMult_tainted_point(NewSM2Point().Set(Q), vgBytes(451+i, 32))
+	}
+	vgNote("scenario ScalarMult_tainted_point 3")
+}
